@@ -482,12 +482,103 @@ func checkC08(c C08Case, r *Rec) *Violation {
 	return nil
 }
 
+// ---------------------------------------------------------------- whole-run bracket
+//
+// "Again, in any order relative to other compilations": the longest history a run has is the run
+// itself. A fixed set of canary cases - hand-written degenerate shapes (single-operand and/or
+// groups, which only ReduceNesting makes evaluable, zero-operand calls, empty lists) and forty
+// generated ones - is compiled under several option subsets before the first case of the shard and
+// again after the last one, thousands of compilations later, many of them failing ones (malformed
+// directives, count errors). Verdicts, Dump, DumpTable and outcomes must be the same.
+
+type c08Canary struct {
+	c    C08Case
+	res  []c08Result
+	what []string
+}
+
+func c08HandCanaries() []C08Case {
+	b := func(i int) *m.Node { return m.Var(fmt.Sprintf("b%d", i)) }
+	i := func(k int) *m.Node { return m.Var(fmt.Sprintf("i%d", k)) }
+	trees := []*m.Node{
+		m.Op("and", m.Op("and", b(0)), b(1)),
+		m.Op("or", m.Op("or", b(0), b(1))),
+		m.Op("and", m.Op("&&", b(0), b(1))),
+		m.Op("or", m.Op("|", b(0)), m.Op("||", b(1))),
+		m.Op("and", m.Op("or", b(0)), b(1)),
+		m.If(m.Op("and", m.Op("and", b(0)), b(1)), i(0), i(1)),
+		m.Op("and", m.Op("and", m.Op(">", i(0), i(1))), m.Op("=", i(0), m.Const(int64(1)))),
+		m.Op("=", m.Op("c_sum"), m.Op("+", i(0), m.Const(int64(0)))),
+		m.Op("overlap", m.Const([]string{}), m.Const([]int64{1, 2})),
+		m.Op("and", b(0), m.Op("and", b(1), m.Op("and", b(2), m.Op("and", b(0), b(1))))),
+		m.Op("or", m.Op("and", b(0), b(1)), m.Op("and", b(1), b(2)), m.Op("not", b(0))),
+		m.Op("xor", m.Op("and", m.Op("and", b(0))), b(1)),
+	}
+	u := Universe{RegMode: RegGetOrReg}
+	for k := 0; k < 3; k++ {
+		u.Vars = append(u.Vars, VarDecl{Name: fmt.Sprintf("b%d", k), Ty: m.TBool, Val: m.V{X: k != 1}})
+	}
+	for k := 0; k < 2; k++ {
+		u.Vars = append(u.Vars, VarDecl{Name: fmt.Sprintf("i%d", k), Ty: m.TInt, Val: m.V{X: int64(k + 1)}})
+	}
+	var out []C08Case
+	for _, tr := range trees {
+		out = append(out, C08Case{U: u, Mask: 15, Sources: []C08Source{{Tree: tr}}})
+	}
+	return out
+}
+
+func c08RunCanaries() []c08Canary {
+	cases := c08HandCanaries()
+	gen := rapid.Custom(genC08)
+	for i := 1; i <= 40; i++ {
+		cases = append(cases, gen.Example(i))
+	}
+	var out []c08Canary
+	for _, c := range cases {
+		cn := c08Canary{c: c}
+		for _, s := range c.Sources {
+			src := s.Prefix + m.Render(s.Tree)
+			for _, mask := range []int{c.Mask, 15, MaskNest | MaskFast, MaskNest, 0} {
+				u := c.U
+				cc, _ := NewConfig(&u, &Log{}, Build{Mask: mask, Costs: c.Costs, Pure: true})
+				res, v := c08Compile(cc, &u, src)
+				if v != nil {
+					res.compileErr = true
+					res.dump = v.Msg
+				}
+				cn.res = append(cn.res, res)
+				cn.what = append(cn.what, fmt.Sprintf("%s under %s", clip(src, 300), maskName(mask)))
+			}
+		}
+		out = append(out, cn)
+	}
+	return out
+}
+
+func c08Before() interface{} { return c08RunCanaries() }
+
+func c08After(before interface{}) (*Violation, C08Case) {
+	was := before.([]c08Canary)
+	now := c08RunCanaries()
+	for i := range was {
+		for k := range was[i].res {
+			if d := was[i].res[k].diff(now[i].res[k]); d != "" {
+				return Violf("C08: a canary program compiled before the first case of this run and again after the last one gives a different program: %s\nprogram: %s\n(the difference was caused by something the run did in between - thousands of compilations, among them failing ones - and left in process-wide state of the library; replaying this case alone will not show it)", d, was[i].what[k]), was[i].c
+			}
+		}
+	}
+	return nil, C08Case{}
+}
+
 var propC08 = Prop[C08Case]{
 	ID:       "C08",
-	Rule:     "histories over one shared Config (constants, variables, custom operators, cost map, option subset written fully or sparsely, optionally with caller-written keys no Option function writes - the `optimize` master key, an unknown key -, stateless list) and 2..5 sources over it, each with no directive, a valid ;;;; directive for a drawn subset (4 spellings) or a malformed one: 2..12 actions (Compile on the shared config, CopyConfig / NewConfig(ExtendConf) followed by a mutation of one of the six containers of the copy, incl. append to and in-place assignment of the stateless slice, Compile on a copy, mutation of a config after a copy was taken), then every source recompiled in reverse order, then 2..8 goroutines compiling 2..8 sources each on the shared config under the race detector. Oracles: a deep snapshot of the caller's Config (five maps, slice contents, operator identities) is identical after every Compile; the same source always gives the same compile verdict, Dump, DumpTable and outcomes on 3 bindings; copies equal their source, and mutations never cross between a config and its copies; no race report. Non-trivial = the history contains a directive-bearing compile followed by a directive-free compile of a source whose optimized form differs from its unoptimized form (a leaked directive would be visible); distinct by sources + actions + options",
+	Rule:     "histories over one shared Config (constants, variables, custom operators, cost map, option subset written fully or sparsely, optionally with caller-written keys no Option function writes - the `optimize` master key, an unknown key -, stateless list) and 2..5 sources over it, each with no directive, a valid ;;;; directive for a drawn subset (4 spellings) or a malformed one: 2..12 actions (Compile on the shared config, CopyConfig / NewConfig(ExtendConf) followed by a mutation of one of the six containers of the copy, incl. append to and in-place assignment of the stateless slice, Compile on a copy, mutation of a config after a copy was taken), then every source recompiled in reverse order, then 2..8 goroutines compiling 2..8 sources each on the shared config under the race detector. Oracles: a deep snapshot of the caller's Config (five maps, slice contents, operator identities) is identical after every Compile; the same source always gives the same compile verdict, Dump, DumpTable and outcomes on 3 bindings; copies equal their source, and mutations never cross between a config and its copies; no race report; a fixed set of canary programs (degenerate hand-written shapes and 40 generated cases, 5 subsets each) compiled before the first and after the last case of the run gives identical results. Non-trivial = the history contains a directive-bearing compile followed by a directive-free compile of a source whose optimized form differs from its unoptimized form (a leaked directive would be visible); distinct by sources + actions + options",
 	Gen:      genC08,
 	Check:    checkC08,
 	PreWrite: true,
+	Before:   c08Before,
+	After:    c08After,
 }
 
 func TestC08(t *testing.T)       { Run(t, propC08) }
